@@ -132,6 +132,18 @@ func (m *model) look(name string, typ uint16) (recs []simdoh.RR, st string) {
 			continue // transient
 		}
 		switch f.Kind {
+		case simdoh.FaultOtherQ:
+			// a response to another question: whatever in it is owned by the
+			// queried name (or reached from it through CNAMEs of that answer)
+			// counts, the rest does not; its response code is what it is
+			ans, rc := m.z.Lookup(f.Text, typ)
+			switch rc {
+			case 0:
+				return simdoh.Final(ans, name, typ), stOK
+			case 3:
+				return nil, stNX
+			}
+			return nil, fmt.Sprintf("rcode:%d", rc)
 		case simdoh.FaultRCode:
 			switch f.RCode {
 			case 0:
@@ -304,6 +316,15 @@ func (m *model) follow(e *expect, port []int, host, start string) {
 		if st != stOK && st != stNX {
 			e.addErr(st)
 			return
+		}
+		for i := range recs {
+			if recs[i].Target != "" && len(simdoh.NameProblems(recs[i].Target)) > 0 {
+				// the universe holds a name that no message can carry: what the
+				// resolver returns is not asserted, only what it asks (the query
+				// monitor: it must never ask for such a name)
+				e.skip = true
+				return
+			}
 		}
 		var aliases, services []simdoh.RR
 		for i := range recs {
